@@ -57,6 +57,17 @@ def cases(tier, variants):
         for jac in ("callable", "2-point"):
             yield from F.convex_cases(2, variants, (3,), fams=("qp",), hesses=("rot2",),
                                       extra=dict(part="e1", jac=jac, brep=rep))
+    # letter: box sides far narrower than the finite-difference step (variables of
+    # magnitude 1e-9): every stencil step has to be fitted into the bounds
+    for jac in (None, "2-point", "3-point"):
+        yield from F.convex_cases(2, list(range(core.NVAR)), (3,), fams=("qp",), hesses=("rot2",),
+                                  extra=dict(part="e1", jac=jac, narrow=1e-9))
+    # configuration letters: the packaged gradient scaler, and runs that stop before any
+    # step is accepted (maxiter = 0, evaluation budget of one)
+    for mi, mf in ((0, 3000), (60, 1), (60, 3000)):
+        yield from F.convex_cases(2, variants, (3,), fams=("qp",), hesses=("rot2",),
+                                  extra=dict(part="e1", jac="callable", scaler="packaged",
+                                             maxiter=mi, maxfun=mf))
     # history letter: a second optimisation, on a ten times larger box, runs inside the
     # callback of the first one (two solves alive at the same time, different boxes)
     for jac in JACS:
@@ -195,7 +206,13 @@ def run(case):
     res = None
     exc = None
     kw = dict(maxcor=case.get("maxcor", 3), maxls=case.get("maxls", 20),
-              maxfun=case.get("maxfun", 3000), maxiter=60, ftol=1e-14, gtol=1e-9)
+              maxfun=case.get("maxfun", 3000), maxiter=case.get("maxiter", 60), ftol=1e-14,
+              gtol=1e-9)
+    if case.get("scaler") == "packaged":
+        from lbfgsb import get_gradient_projection_unit_scaling
+        x0c_ = np.clip(p.x0, p.lb, p.ub)
+        if F.pgnorm(x0c_, np.asarray(p.g(x0c_), float), p.lb, p.ub) > 0:
+            kw["gradient_scaler"] = get_gradient_projection_unit_scaling
     x0_ = p.x0.astype(np.float32) if case.get("x0dtype") == "f4" else p.x0.copy()
     def cb(x, st):
         its.append((x.copy(), np.copy(st.x)))
